@@ -130,7 +130,7 @@ class Session:
         self.queries.append(q)
         return q
 
-    def check_obligations(self, prefix, kinds=("panic", "unwind", "exhaustive")):
+    def check_obligations(self, prefix, kinds=("panic", "unwind", "exhaustive", "fpexact")):
         """every recorded panic / unwinding obligation must be unreachable under the assumptions"""
         out = []
         for i, (kind, label, cond) in enumerate(self.ex.obligations):
